@@ -1,7 +1,429 @@
-//! C14 – printed rows render the table faithfully (placeholder; built later).
+//! C14 – printed rows render the table faithfully under their column headers.
+//! (a) print sub-process on directly constructed rows x all 32 -i subsets
+//! (b) CLI refresh blocks (see cli.rs)
+
+use crate::json::J;
+use crate::printsub::*;
+use crate::refmodel::codes::ref_wake;
 use crate::report::Report;
+use crate::rng::Rng;
 use crate::Ctx;
 
-pub fn wake_letters(_ctx: &Ctx) -> Option<Report> {
-    None
+#[derive(Clone, Debug)]
+pub struct ParsedTable {
+    pub header: String,
+    pub sep: String,
+    pub rows: Vec<String>,
+    /// (name, start, end) in characters, taken from the separator's dash runs and the header text
+    pub cols: Vec<(String, usize, usize)>,
+}
+
+pub fn parse_table(text: &str) -> Result<ParsedTable, String> {
+    let lines: Vec<&str> = text.split('\n').collect();
+    let lines: Vec<&str> = if lines.last() == Some(&"") { lines[..lines.len() - 1].to_vec() } else { lines };
+    if lines.len() < 3 {
+        return Err(format!("a refresh needs header, separator, closing separator; got {} lines", lines.len()));
+    }
+    let header = lines[0].to_string();
+    let sep = lines[1].to_string();
+    let is_sep = |l: &str| !l.is_empty() && l.chars().all(|c| c == '-' || c == ' ') && l.contains('-');
+    if !is_sep(&sep) {
+        return Err(format!("second line is not a separator: {:?}", sep));
+    }
+    let last_sep = lines.iter().rposition(|l| *l == sep).unwrap_or(0);
+    if last_sep < 2 && lines.len() > 2 && last_sep != lines.len() - 1 {
+        return Err("closing separator missing".into());
+    }
+    if last_sep == 1 {
+        return Err("closing separator missing".into());
+    }
+    let rows: Vec<String> = lines[2..last_sep].iter().map(|s| s.to_string()).collect();
+    // columns from dash runs
+    let sc: Vec<char> = sep.chars().collect();
+    let hc: Vec<char> = header.chars().collect();
+    let mut cols = Vec::new();
+    let mut i = 0;
+    while i < sc.len() {
+        if sc[i] == '-' {
+            let st = i;
+            while i < sc.len() && sc[i] == '-' {
+                i += 1;
+            }
+            let name: String = hc.iter().skip(st).take(i - st).collect::<String>().trim().to_string();
+            cols.push((name, st, i));
+        } else {
+            i += 1;
+        }
+    }
+    Ok(ParsedTable { header, sep, rows, cols })
+}
+
+pub fn cell(row: &str, st: usize, en: usize) -> String {
+    row.chars().skip(st).take(en - st).collect()
+}
+
+#[derive(Clone, Copy, PartialEq, Debug)]
+pub enum Align {
+    Left,
+    Right,
+    /// shape only (ages)
+    Shape,
+}
+
+/// expected text of a column for a row; None = column not known to the reference
+pub fn ref_cell(name: &str, r: &PRow) -> Option<(String, Align)> {
+    let pos_known = r.lat != 0.0 && r.lon != 0.0;
+    let num = |x: Option<String>| x.unwrap_or_default();
+    Some(match name {
+        "ICAO" => (format!("{:06X}", r.icao), Align::Left),
+        "RG" => (r.reg.clone(), Align::Left),
+        "SQWK" => (num(r.squawk.map(|s| format!("{:04}", s))), Align::Right),
+        "W" => (ref_wake(r.category.0, r.category.1).map(|c| c.to_string()).unwrap_or_default(), Align::Left),
+        "CALLSIGN" => (r.ais.clone().unwrap_or_default(), Align::Left),
+        "LATITUDE" => (if pos_known { format!("{:.5}", r.lat) } else { String::new() }, Align::Right),
+        "LONGITUDE" => (if pos_known { format!("{:.5}", r.lon) } else { String::new() }, Align::Right),
+        "DIST" => (num(r.dist.map(|d| format!("{:.1}", d))), Align::Right),
+        "ALT B" => (num(r.altitude.map(|a| a.to_string())), Align::Right),
+        "ALT G" => (num(r.altitude_gnss.map(|a| a.to_string())), Align::Right),
+        "ALT S" => (num(r.selected_altitude.map(|a| a.to_string())), Align::Right),
+        "BARO" => (num(r.baro.map(|a| a.to_string())), Align::Right),
+        "VRATE" => (num(r.vrate.map(|a| a.to_string())), Align::Right),
+        "TRK" => (num(r.track.map(|a| a.to_string())), Align::Right),
+        "HDG" => (num(r.heading.map(|a| a.to_string())), Align::Right),
+        "GSP" => (num(r.grspeed.map(|a| a.to_string())), Align::Right),
+        "TAS" => (num(r.tas.map(|a| a.to_string())), Align::Right),
+        "IAS" => (num(r.ias.map(|a| a.to_string())), Align::Right),
+        "MACH" => (num(r.mach.map(|a| format!("{:.2}", a))), Align::Right),
+        "RLL" => (num(r.roll.map(|a| a.to_string())), Align::Right),
+        "TAR" => (num(r.tar.map(|a| a.to_string())), Align::Right),
+        "TEMP" => (num(r.temperature.map(|a| format!("{:.1}", a))), Align::Right),
+        "WND" => (num(r.wind.map(|a| a.0.to_string())), Align::Right),
+        "WDR" => (num(r.wind.map(|a| a.1.to_string())), Align::Right),
+        "HUM" => (num(r.humidity.map(|a| a.to_string())), Align::Right),
+        "PRES" => (num(r.pressure.map(|a| a.to_string())), Align::Right),
+        "TB" => (num(r.turbulence.map(|a| a.to_string())), Align::Right),
+        "VX" => (format!("{}{}", r.category.0, r.category.1), Align::Left),
+        "DF" => (if r.last_df != 0 { r.last_df.to_string() } else { String::new() }, Align::Right),
+        "TC" => (if r.last_tc != 0 { r.last_tc.to_string() } else { String::new() }, Align::Right),
+        "V" => (num(r.version.map(|a| a.to_string())), Align::Right),
+        "S" => (if r.ss == ' ' { String::new() } else { r.ss.to_string() }, Align::Left),
+        "PTH" => (String::new(), Align::Shape),
+        "LC" => (r.age.to_string(), Align::Right),
+        _ => return None,
+    })
+}
+
+pub const BASE_COLS: [&str; 14] = ["ICAO", "RG", "SQWK", "W", "CALLSIGN", "LATITUDE", "LONGITUDE", "DIST", "ALT B", "VRATE", "TRK", "HDG", "GSP", "LC"];
+pub const GROUPS: [(char, &[&str]); 5] = [
+    ('A', &["ALT G", "ALT S", "BARO"]),
+    ('s', &["TAS", "IAS", "MACH"]),
+    ('a', &["RLL", "TAR"]),
+    ('w', &["TEMP", "WND", "WDR", "HUM", "PRES", "TB"]),
+    ('e', &["VX", "DF", "TC", "V", "S", "PTH"]),
+];
+
+pub fn expected_columns(display: &str) -> Vec<&'static str> {
+    let mut v: Vec<&'static str> = BASE_COLS.to_vec();
+    for (c, cols) in GROUPS.iter() {
+        if display.contains(*c) {
+            v.extend(cols.iter());
+        }
+    }
+    v
+}
+
+/// Check one printed table against the rows (in the order printed: matched by the ICAO cell).
+/// Returns list of (class, message).
+pub fn check_table(text: &str, display: &str, rows: &[PRow], check_age: bool) -> Vec<(String, String)> {
+    let mut bad = Vec::new();
+    let t = match parse_table(text) {
+        Ok(t) => t,
+        Err(e) => return vec![("table-structure".into(), e)],
+    };
+    // column groups present exactly when requested
+    let want = expected_columns(display);
+    let have: Vec<&str> = t.cols.iter().map(|c| c.0.as_str()).collect();
+    for w in &want {
+        if !have.contains(w) {
+            bad.push(("column-missing".into(), format!("column {:?} missing for -i {:?}; header {:?}", w, display, t.header)));
+        }
+    }
+    for h in &have {
+        if !want.contains(h) {
+            bad.push(("column-unexpected".into(), format!("column {:?} printed although -i {:?} does not request its group", h, display)));
+        }
+    }
+    if t.header.chars().count() != t.sep.chars().count() {
+        bad.push(("width".into(), format!("header width {} != separator width {}", t.header.chars().count(), t.sep.chars().count())));
+    }
+    if t.rows.len() != rows.len() {
+        bad.push(("row-count".into(), format!("{} rows printed for {} aircraft", t.rows.len(), rows.len())));
+    }
+    let icao_col = t.cols.iter().find(|c| c.0 == "ICAO").cloned();
+    for line in &t.rows {
+        let Some((_, s, e)) = &icao_col else { break };
+        let ic = cell(line, *s, *e);
+        let Some(r) = rows.iter().find(|r| format!("{:06X}", r.icao) == ic.trim()) else {
+            bad.push(("unknown-row".into(), format!("printed row with ICAO cell {:?} matches no aircraft: {:?}", ic, line)));
+            continue;
+        };
+        let mut all_fit = true;
+        for (name, st, en) in &t.cols {
+            let Some((text, align)) = ref_cell(name, r) else { continue };
+            let w = en - st;
+            let fits = text.chars().count() <= w;
+            if !fits {
+                all_fit = false;
+                continue; // a value wider than its column: layout of this row is not judged
+            }
+            let got = cell(line, *st, *en);
+            match align {
+                Align::Shape => {
+                    if got.chars().count() != w && all_fit {
+                        bad.push(("cell".into(), format!("{}: cell {:?} has wrong width", name, got)));
+                    }
+                }
+                Align::Left | Align::Right => {
+                    if name == "LC" && !check_age {
+                        continue;
+                    }
+                    let exp = if align == Align::Left { format!("{:<w$}", text, w = w) } else { format!("{:>w$}", text, w = w) };
+                    let ok = if name == "LC" {
+                        // the age may have advanced by a second while printing
+                        got == exp || got.trim().parse::<i64>().is_ok_and(|g| g == r.age + 1)
+                    } else {
+                        got == exp
+                    };
+                    if !ok && all_fit_so_far(line, &t, r, *st) {
+                        bad.push((
+                            if text.is_empty() { "blank-cell".to_string() } else { format!("cell-{}", name.replace(' ', "_")) },
+                            format!("{:06X} column {:?}: printed {:?}, expected {:?} ({:?}-aligned in width {}) | row {:?}", r.icao, name, got, exp, align, w, line),
+                        ));
+                    }
+                }
+            }
+        }
+        if all_fit {
+            let lw = line.chars().count();
+            if lw != t.header.chars().count() {
+                bad.push(("width".into(), format!("{:06X}: row width {} != header width {} although every value fits its column | {:?}", r.icao, lw, t.header.chars().count(), line)));
+            }
+        }
+    }
+    bad
+}
+
+/// cells left of position `upto` all fit their columns (an oversized value shifts everything to its right)
+fn all_fit_so_far(_line: &str, t: &ParsedTable, r: &PRow, upto: usize) -> bool {
+    t.cols.iter().filter(|c| c.1 < upto).all(|(name, st, en)| ref_cell(name, r).is_none_or(|(text, _)| text.chars().count() <= en - st))
+}
+
+fn opt<T>(r: &mut Rng, blank_1_in: u64, f: impl FnOnce(&mut Rng) -> T) -> Option<T> {
+    if r.chance(1, blank_1_in) { None } else { Some(f(r)) }
+}
+
+/// rows covering, per column, blank / minimum / maximum in-range / negative values
+pub fn gen_rows(r: &mut Rng, n: usize, fitting_only: bool) -> Vec<PRow> {
+    let mut used = std::collections::HashSet::new();
+    let mut v = Vec::new();
+    let regs = ["US", "IE", "DE", "??", "GB", "RU", "", "F"];
+    let srcs = [' ', '\u{2070}', '\u{2081}', '\u{2082}', '\u{2083}', '\u{2085}', '\u{2086}', '"', '_'];
+    for i in 0..n {
+        let icao = loop {
+            let a = match r.below(6) {
+                0 => r.below(16) as u32 + 1,
+                1 => 0xFFFFFF - r.below(16) as u32,
+                _ => r.addr(),
+            };
+            if used.insert(a) {
+                break a;
+            }
+        };
+        let extreme = i % 3; // 0 min-ish, 1 max-ish, 2 random
+        let pick_u = |r: &mut Rng, lo: u32, hi: u32| match extreme {
+            0 => lo,
+            1 => hi,
+            _ => lo + r.below((hi - lo + 1) as u64) as u32,
+        };
+        let pick_i = |r: &mut Rng, lo: i32, hi: i32| match extreme {
+            0 => lo,
+            1 => hi,
+            _ => lo + r.below((hi - lo + 1) as u64) as i32,
+        };
+        let known_pos = !r.chance(1, 4);
+        let (lat, lon) = if known_pos {
+            match extreme {
+                0 => (-89.99999, -179.99999),
+                1 => (89.99999, 179.99999),
+                _ => (r.f64() * 178.0 - 89.0 + 0.000001, r.f64() * 358.0 - 179.0 + 0.000001),
+            }
+        } else {
+            (0.0, 0.0)
+        };
+        let codes = crate::fgen::rand_callsign_codes(r);
+        let cs: String = crate::refmodel::codes::ref_callsign(crate::refmodel::codes::enc_callsign(&codes)).chars().take(r.below(9) as usize).collect();
+        let wide = !fitting_only && r.chance(1, 6);
+        v.push(PRow {
+            icao,
+            reg: regs[r.below(regs.len() as u64) as usize].to_string(),
+            squawk: opt(r, 4, |r| pick_u(r, 0, 7777)),
+            threat: if r.chance(1, 5) { Some(*r.pick(&['\u{2071}', '\u{2072}'])) } else { None },
+            category: (r.below(5) as u32, r.below(8) as u32),
+            ais: opt(r, 4, |_| cs.clone()),
+            lat,
+            lon,
+            dist: if known_pos { opt(r, 3, |r| if wide { 12345.67 } else { [0.0, 999.94, r.f64() * 900.0][extreme] }) } else { None },
+            altitude: opt(r, 4, |r| pick_u(r, 0, 99_975)),
+            altitude_source: *r.pick(&srcs),
+            altitude_gnss: opt(r, 3, |r| if wide { 4_294_966_000 } else { pick_u(r, 0, 99_999) }),
+            selected_altitude: opt(r, 3, |r| pick_u(r, 0, 65_520)),
+            target_altitude_source: *r.pick(&srcs),
+            baro: opt(r, 3, |r| pick_u(r, 800, 1209)),
+            vrate: opt(r, 4, |r| if wide { -32_640 } else { pick_i(r, -9_984, 32_640) }),
+            vrate_source: *r.pick(&srcs),
+            track: opt(r, 4, |r| pick_u(r, 0, 359)),
+            track_source: *r.pick(&srcs),
+            heading: opt(r, 3, |r| pick_u(r, 0, 359)),
+            heading_source: *r.pick(&srcs),
+            grspeed: opt(r, 4, |r| pick_u(r, 0, 999)),
+            tas: opt(r, 3, |r| pick_u(r, 0, 500)),
+            ias: opt(r, 3, |r| if wide { 1023 } else { pick_u(r, 1, 999) }),
+            mach: opt(r, 3, |r| [0.004, 1.0, (r.below(250) as f64) * 0.004][extreme]),
+            roll: opt(r, 3, |r| pick_i(r, -50, 50)),
+            tar: opt(r, 3, |r| pick_i(r, -16, 15)),
+            temperature: opt(r, 3, |r| [-80.0, 60.0, r.f64() * 100.0 - 70.0][extreme]),
+            wind: opt(r, 3, |r| (pick_u(r, 0, 300), pick_u(r, 0, 359))),
+            humidity: opt(r, 3, |r| pick_u(r, 0, 100)),
+            pressure: opt(r, 3, |r| pick_u(r, 0, 2048)),
+            turbulence: opt(r, 3, |r| pick_u(r, 0, 15)),
+            last_df: *r.pick(&[0u32, 4, 5, 11, 17, 20, 21]),
+            last_tc: *r.pick(&[0u32, 1, 4, 11, 19, 31]),
+            version: opt(r, 3, |r| r.below(3) as u32),
+            ss: *r.pick(&[' ', 'N', 'P', 'T', 'S']),
+            pos_age: opt(r, 3, |r| r.below(200) as i64),
+            trk_age: opt(r, 3, |r| r.below(200) as i64),
+            hdg_age: opt(r, 3, |r| r.below(200) as i64),
+            age: [0, 98, r.below(60) as i64][extreme],
+        });
+    }
+    v
+}
+
+pub fn display_subsets() -> Vec<String> {
+    let letters = ['a', 'A', 'e', 'w', 's'];
+    (0..32u32).map(|m| letters.iter().enumerate().filter(|(i, _)| (m >> i) & 1 == 1).map(|(_, c)| *c).collect::<String>()).collect()
+}
+
+fn printed_rows(ctx: &Ctx) -> Report {
+    let mut rep = Report::new("C14", "print-subprocess");
+    let mut r = ctx.rng("c14");
+    let subsets = display_subsets();
+    let rounds = ctx.n(1, 40);
+    let nrows = if ctx.quick() { 60 } else { 120 };
+    for round in 0..rounds {
+        let mut specs = Vec::new();
+        for (si, d) in subsets.iter().enumerate() {
+            if !ctx.mine((si as u64) + round * 32) {
+                continue;
+            }
+            let rows = gen_rows(&mut r, nrows, si % 2 == 0);
+            // -i letters may be spread over several arguments and carry unknown letters
+            let display = match si % 3 {
+                0 => vec![d.clone()],
+                1 => d.chars().map(|c| c.to_string()).collect::<Vec<_>>().into_iter().chain(std::iter::once("".to_string())).collect(),
+                _ => vec![format!("{}zQ", d).replace('Q', "")],
+            };
+            specs.push((d.clone(), TableSpec { display, order: vec!["".into()], rows }));
+        }
+        if specs.is_empty() {
+            continue;
+        }
+        let tables: Vec<TableSpec> = specs.iter().map(|s| s.1.clone()).collect();
+        match render(&tables) {
+            Err(e) => {
+                if e.contains("panicked") {
+                    rep.violation("panic-in-print", "print child".into(), e, vec![]);
+                } else {
+                    rep.inconclusive(e);
+                }
+            }
+            Ok(texts) => {
+                for ((d, spec), text) in specs.iter().zip(texts.iter()) {
+                    rep.count("tables_rendered", 1);
+                    rep.count("rows_rendered", spec.rows.len() as i64);
+                    rep.count("cells_compared", (spec.rows.len() * expected_columns(d).len()) as i64);
+                    for row in &spec.rows {
+                        rep.eval(Some(format!("{}|{}", d, row.to_line()).as_bytes()));
+                    }
+                    rep.class(&format!("-i {:?}", d));
+                    let bad = check_table(text, d, &spec.rows, true);
+                    if rep.want_sample() {
+                        rep.sample(
+                            J::obj()
+                                .with("display", J::s(d))
+                                .with("header", J::s(text.lines().next().unwrap_or("")))
+                                .with("first_row", J::s(text.lines().nth(2).unwrap_or("")))
+                                .with("rows", J::i(spec.rows.len() as u64))
+                                .with("problems", J::i(bad.len() as u64)),
+                        );
+                    }
+                    for (class, msg) in bad.into_iter().take(6) {
+                        rep.violation(&class, format!("-i {:?}", d), msg, vec![format!("note print sub-process with -i {:?}; spec rows: {}", d, spec.rows.len())]);
+                    }
+                }
+            }
+        }
+    }
+    rep.exhaustive.push("all 32 subsets of the five -i groups".into());
+    rep
+}
+
+/// C07: wake-class letter for all 32 (TC, CA) pairs on the printed table
+pub fn wake_letters(ctx: &Ctx) -> Option<Report> {
+    if ctx.shard != 0 {
+        return None;
+    }
+    let mut rep = Report::new("C07", "wake-letter");
+    let mut rows = Vec::new();
+    for tc in 0..=4u32 {
+        for ca in 0..8u32 {
+            let mut r = PRow { icao: 0x100000 + tc * 16 + ca, reg: "RU".into(), category: (tc, ca), altitude_source: ' ', target_altitude_source: ' ', vrate_source: ' ', track_source: ' ', heading_source: ' ', ss: ' ', ..Default::default() };
+            r.ais = Some(format!("T{}C{}", tc, ca));
+            rows.push(r);
+        }
+    }
+    match render(&[TableSpec { display: vec!["e".into()], order: vec!["".into()], rows: rows.clone() }]) {
+        Err(e) => rep.inconclusive(e),
+        Ok(t) => match parse_table(&t[0]) {
+            Err(e) => rep.violation("table-structure", "wake".into(), e, vec![]),
+            Ok(pt) => {
+                let w = pt.cols.iter().find(|c| c.0 == "W").cloned();
+                let ic = pt.cols.iter().find(|c| c.0 == "ICAO").cloned();
+                let (Some(w), Some(ic)) = (w, ic) else {
+                    rep.violation("column-missing", "W".into(), format!("no W/ICAO column in {:?}", pt.header), vec![]);
+                    return Some(rep);
+                };
+                for r in &rows {
+                    let line = pt.rows.iter().find(|l| cell(l, ic.1, ic.2) == format!("{:06X}", r.icao));
+                    let want = ref_wake(r.category.0, r.category.1).map(|c| c.to_string()).unwrap_or(" ".into());
+                    let got = line.map(|l| cell(l, w.1, w.2));
+                    rep.eval(Some(format!("{:?}", r.category).as_bytes()));
+                    if got.as_deref() != Some(want.as_str()) {
+                        rep.violation("wake-letter", format!("{:?}", r.category), format!("category {:?}: W column shows {:?}, expected {:?}", r.category, got, want), vec![format!("note print sub-process, row category {:?}", r.category)]);
+                    }
+                }
+                rep.sample(J::obj().with("pairs_checked", J::i(rows.len() as u64)).with("header", J::s(&pt.header)));
+            }
+        },
+    }
+    rep.exhaustive.push("all (type code 0..4, category 0..7) pairs".into());
+    Some(rep)
+}
+
+pub fn run(ctx: &Ctx) -> Vec<Report> {
+    let mut out = vec![printed_rows(ctx)];
+    if let Some(r) = super::cli::refresh_blocks(ctx) {
+        out.push(r);
+    }
+    out
 }
